@@ -312,8 +312,9 @@ struct C08Out { std::string image, image_again, image_gen2, traces_before, trace
 
 static std::string c08_roundtrip(const LabCase& lc, const std::vector<std::string>& bufs, uint8_t junk, size_t pad, size_t chunk, C08Out& o) {
   // returns "" or an error text (harness-level)
-  sim_alloc_reset(); g_alloc.junk_byte = junk; g_alloc.pad = pad;
+  sim_alloc_reset(); g_alloc.junk_byte = junk; g_alloc.pad = pad; g_stack_junk = junk;
   CompileResult cr = compile_rules(lc.spec);
+  g_stack_junk = 0;
   if (!cr.rules) return "compile failed: " + cr.messages;
   poison_slack(cr.rules, true);
   o.traces_before = scan_traces(cr.rules, bufs);
@@ -622,7 +623,7 @@ int main(int argc, char** argv) {
       C17Case c; if (!c17_prepare(c, lc)) { emit_note("c17: case does not compile: " + lc.desc); continue; }
       c17_run_case(c, rng, thorough, st, i);
       c17_disk_full(c, rng, thorough, st, i);
-    } else if (mode == "c08") c08_run_case(lc, rng, thorough, st, i);
+    } else if (mode == "c08") { std::string onlyk = args.get("only", ""); if (onlyk.empty()) c08_run_case(lc, rng, thorough, st, i); else c08_run_case(lc, rng, thorough, st, i, onlyk, (int64_t) rng.range(1, 255), 8 * (int64_t) rng.range(1, 64), 0); }
     else c19_run_case(lc, rng, thorough, st, i);
     st.c["cases"]++;
     if (st.hashes.size() > 4000) st.flush(false);
